@@ -485,7 +485,7 @@ pub fn make_replay(h: &dyn Harness, verif_seed: u64, index: u64, rs: u64, cfg: &
 pub fn worker(h: &dyn Harness, verif_seed: u64, from: u64, to: u64, only_mode: Option<&str>, max_viol: usize) {
     let mut agg = Agg::default();
     let out = std::io::stdout();
-    let mut nviol = 0usize;
+    let mut nviol: BTreeMap<String, usize> = BTreeMap::new();
     for index in from..to {
         let (rs, mode, deciding, plan, cfg) = derive_run(h, verif_seed, index, only_mode);
         let res = execute(h, &plan, &cfg, Decisions::Seeded(rs));
@@ -548,8 +548,11 @@ pub fn worker(h: &dyn Harness, verif_seed: u64, from: u64, to: u64, only_mode: O
         if let Some(v) = &res.violation {
             if deciding {
                 agg.violations += 1;
-                if nviol < max_viol {
-                    nviol += 1;
+                // up to max_viol replay candidates per violation class, so that a frequent (possibly known)
+                // class cannot crowd out a rare one
+                let n = nviol.entry(v.class.clone()).or_default();
+                if *n < max_viol {
+                    *n += 1;
                     let rf = make_replay(h, verif_seed, index, rs, &cfg, &plan, &res, v);
                     let mut o = out.lock();
                     let _ = writeln!(o, "V {}", serde_json::to_string(&rf).unwrap());
@@ -809,7 +812,8 @@ pub fn drive_harness(h: &dyn Harness, verif_seed: u64, total: u64, workers: usiz
                 Err(e) => errors.push(format!("bad violation line: {e}")),
             }
         }
-        if viols.len() >= 8 || start.elapsed().as_secs_f64() > wall_budget_s {
+        let distinct: BTreeSet<&str> = viols.iter().map(|v| v.violation.class.as_str()).collect();
+        if (viols.len() >= 8 && distinct.len() >= 3) || viols.len() >= 400 || start.elapsed().as_secs_f64() > wall_budget_s {
             stop = true;
         }
     }
